@@ -34,6 +34,13 @@ theorem topo_cycle (g : Graph) (allow : Bool) (hwf : WF g) (hr : Resolved g allo
     (∃ i p, sortEx g allow = .cycle i p) ↔ Cyclic (fun a b => Hard g a b ∨ Ctrl g a b) :=
   Topo.sortEx_cycle_iff g allow hwf hr
 
+/-- The reported cycle is real: the item named by the `CycleError` lies on a
+    cycle of hard ∪ control edges (never on a merely soft one). -/
+theorem topo_cycle_item (g : Graph) (allow : Bool) (hr : Resolved g allow) (i : Nat)
+    (p : List Nat) (h : sortEx g allow = .cycle i p) :
+    Relation.TransGen (fun a b => Hard g a b ∨ Ctrl g a b) i i :=
+  Topo.sortEx_cycle_item g allow hr i p h
+
 /-- Soft edges are honoured whenever all edges together are acyclic. -/
 theorem topo_soft (g : Graph) (allow : Bool) (hwf : WF g) (hr : Resolved g allow)
     (hac : ¬ Cyclic (fun a b => Hard g a b ∨ Ctrl g a b ∨ Weak g a b)) :
